@@ -19,10 +19,10 @@ pub const ENTRY: Entry = Entry {
     rule: "counting oracle on the decoded bus trace of the real driver. (1) every fill_solid / fill_contiguous / clear of the C01 and \
            C04 rectangle alphabets: at most one window set-up (CASET+RASET+RAMWR), exactly one when a pixel is written. (2) with \
            `batch`: draw_iter on every in-bounds stream of the C03 alphabets (all streams of length <= 4 on a 3x3 display; all words \
-           of <= 3 run/block/pixel symbols crossing the capacities) needs no more window set-ups than the sum over maximal \
+           of <= 3 run/block/pixel symbols crossing the capacities, also on rotated non-square displays) needs no more window set-ups than the sum over maximal \
            left-to-right runs of ceil(len / R), and never more than one per pixel, where the row capacity R is measured from the \
            driver's behaviour on one long run and must be >= 2. (3) the real SpiInterface sends a burst of b bytes in at most floor(b / \
-           usable) + 1 transactions (usable = floor(L/N)*N) for every call of the C06 alphabet. Only counts are observed, so any \
+           usable) + 1 transactions (usable = floor(L/N)*N) for every call of the C06 alphabet, alone and after every other pixel call over the same byte alphabet. Only counts are observed, so any \
            re-chunking within the bounds is accepted. Non-trivial = streams with a run of >= 2 pixels / bursts longer than the buffer.",
     assumptions: &["without `batch` only the per-pixel bound applies to draw_iter"],
     run,
@@ -155,9 +155,17 @@ fn run(ctx: &Ctx) -> Part {
         })
         .reduce(Acc::new, Acc::merge);
     acc = acc.merge(a);
-    for wide in [true, false] {
-        let cfg = if wide { Cfg::tiny(130, 4, false, Transport::RecSerial, (130, 4, 0, 0), 0) } else { Cfg::tiny(3, 104, false, Transport::RecSerial, (3, 104, 0, 0), 0) };
-        let syms = c03::coarse_symbols(r, bk, wide);
+    let coarse_cfgs = [
+        (true, Cfg::tiny(130, 4, false, Transport::RecSerial, (130, 4, 0, 0), 0)),
+        (false, Cfg::tiny(3, 104, false, Transport::RecSerial, (3, 104, 0, 0), 0)),
+        // rotated: logical width larger than the panel's native width
+        (true, Cfg::tiny(3, 104, false, Transport::RecSerial, (3, 104, 0, 0), 1)),
+        (true, Cfg::tiny(3, 104, false, Transport::RecSerial, (3, 104, 0, 0), 7)),
+        (false, Cfg::tiny(130, 4, false, Transport::RecSerial, (130, 4, 0, 0), 3)),
+    ];
+    for (wide, cfg) in coarse_cfgs {
+        let (clw, clh) = cfg.geo().lsize();
+        let syms = c03::coarse_symbols_for(r, bk, wide, clw, clh);
         let idx: Vec<usize> = (0..syms.len()).collect();
         let a = idx
             .par_iter()
@@ -206,17 +214,24 @@ fn run(ctx: &Ctx) -> Part {
             .par_iter()
             .fold(Acc::new, |mut acc, &(n, l)| {
                 let usable = ((l / n) * n) as u64;
-                for call in c06::alphabet(n, l, 0) {
-                    if matches!(call, TCall::Cmd { .. }) {
-                        continue;
+                let calls: Vec<TCall> = c06::alphabet(n, l, 0).into_iter().filter(|c| !matches!(c, TCall::Cmd { .. })).collect();
+                // single calls and every ordered pair over ONE byte alphabet (a small fill followed by a
+                // larger fill of the same colour, a stream followed by a fill, ...): bound on the last call
+                let mut hists: Vec<Vec<TCall>> = calls.iter().map(|c| vec![c.clone()]).collect();
+                for a in &calls {
+                    for b in &calls {
+                        hists.push(vec![a.clone(), b.clone()]);
                     }
+                }
+                for hist in hists {
+                    let call = hist.last().unwrap().clone();
                     acc.evaluations += 1;
-                    let o = c06::run_history(n, l, std::slice::from_ref(&call));
+                    let o = c06::run_history(n, l, &hist);
                     if o.fail.is_some() {
                         continue; // C06's business
                     }
-                    let b = o.bytes[0];
-                    let tx = o.txns[0];
+                    let b = *o.bytes.last().unwrap();
+                    let tx = *o.txns.last().unwrap();
                     if b > usable {
                         acc.nontrivial += 1;
                     }
@@ -225,7 +240,7 @@ fn run(ctx: &Ctx) -> Part {
                             prop: ctx.prop.clone(),
                             sig: "spi/too-many-transactions".into(),
                             msg: format!("{tx} SPI transactions for a burst of {b} bytes with a {l}-byte buffer (usable {usable}); bound {}", b / usable + 1),
-                            case: json!({"kind": "c06", "variant": ctx.variant, "n": n, "len": l, "history": [call]}),
+                            case: json!({"kind": "c06", "variant": ctx.variant, "n": n, "len": l, "history": hist}),
                         });
                     }
                     acc.count("spi_bursts", 1);
